@@ -193,10 +193,18 @@ fn oracle(ctx: &mut Ctx, input: &Value, xs: &XScenario, obs: &[XObs], expect_fai
         }
 
         // An offline run still validates what was retained.
+        // (Not in the one second in which a manifest certificate is still
+        // valid for validation but already expired for cleanup, notes/C40.md.)
+        let boundary = scn.world.cas.iter().any(|ca| {
+            ca.versions.iter().any(|v| v.ee_not_after == run.now)
+        });
         if !online && !failed && scn.runs[r - 1].now == run.now && prev.obs.out.ok()
             && xs.extras_of(r).is_empty()
         {
-            if prev.obs.out.payload() != ob.obs.out.payload() {
+            if boundary {
+                ctx.count("offline:boundary-second");
+            }
+            else if prev.obs.out.payload() != ob.obs.out.payload() {
                 ctx.oracle_fail(
                     "offline-run-differs",
                     &format!(
